@@ -16,6 +16,7 @@ from collections.abc import Iterator
 from typing import Literal
 import numpy as np
 import scipy.sparse as sp
+import scipy.special
 
 from . import data as _data
 from .qobj import Qobj
@@ -277,16 +278,18 @@ def coherent(
         return (displace(N, alpha, dtype=dtype) @ basis(N, 0)).to(dtype)
 
     elif method == "analytic":
-        sqrtn = np.sqrt(np.arange(offset, offset+N, dtype=complex))
-        sqrtn[0] = 1  # Get rid of divide by zero warning
-        data = alpha / sqrtn
-        if offset == 0:
-            data[0] = np.exp(-abs(alpha)**2 / 2.0)
+        n = np.arange(offset, offset+N)
+        if alpha == 0:
+            data = (n == 0).astype(complex)
         else:
-            s = np.prod(np.sqrt(np.arange(1, offset + 1)))  # sqrt factorial
-            data[0] = np.exp(-abs(alpha)**2 * 0.5) * alpha**offset / s
-        np.cumprod(data, out=sqrtn)  # Reuse sqrtn array
-        return Qobj(sqrtn, dims=[[N], [1]], copy=False, dtype=dtype)
+            # exp(-|alpha|^2/2) alpha^n / sqrt(n!) in log space: none of the
+            # three factors has to be representable on its own.
+            data = np.exp(
+                -0.5 * abs(alpha)**2
+                + n * np.log(complex(alpha))
+                - 0.5 * scipy.special.gammaln(n + 1)
+            )
+        return Qobj(data, dims=[[N], [1]], copy=False, dtype=dtype)
     raise TypeError(
         "The method option can only take values in " + repr(_COHERENT_METHODS)
     )
